@@ -24,24 +24,24 @@ def run(ctx, repo):
     ctx.trust('CPython ast; sa.cfg dominance; the closed table of partial operations and of guard idioms in sa.partial; '
               'the per-character interpreter of sa.charworld (three-valued, constants only)')
     ok = RD.r_indent_pairing(ctx, repo)
-    RD.r_raise_class(ctx, repo, FRONT, minimum=46,
+    ctx.call(RD.r_raise_class, repo, FRONT, minimum=46,
                      want={'reader': 'reader.ReaderError', 'scanner': 'scanner.ScannerError',
                            'parser': 'parser.ParserError', 'composer': 'composer.ComposerError'})
-    RD.r_raise_class(ctx, repo, ['_yaml'], rule_id='R-RAISE-CLASS(pyx)', minimum=20)
-    RD.r_error_map(ctx, repo)
-    RD.r_pyx_except_clause(ctx, repo)
-    P.r_partial_guarded(ctx, repo, FRONT, indent_pairing_ok=ok)
-    RD.r_token_shapes(ctx, repo)
-    RD.r_loop_progress(ctx, repo)
-    RD.r_sentinel_appended(ctx, repo)
-    RM.r_breakset_positions(ctx, repo)
-    RM.r_parser_stack_discipline(ctx, repo)
-    RX.r_none_deref(ctx, repo)
-    RRDR.r_lookahead_sufficient(ctx, repo)
-    RX.r_buffer_encapsulated(ctx, repo)
-    RLNG.r_regex_linear(ctx, repo)
+    ctx.call(RD.r_raise_class, repo, ['_yaml'], rule_id='R-RAISE-CLASS(pyx)', minimum=20)
+    ctx.call(RD.r_error_map, repo)
+    ctx.call(RD.r_pyx_except_clause, repo)
+    ctx.call(P.r_partial_guarded, repo, FRONT, indent_pairing_ok=ok)
+    ctx.call(RD.r_token_shapes, repo)
+    ctx.call(RD.r_loop_progress, repo)
+    ctx.call(RD.r_sentinel_appended, repo)
+    ctx.call(RM.r_breakset_positions, repo)
+    ctx.call(RM.r_parser_stack_discipline, repo)
+    ctx.call(RX.r_none_deref, repo)
+    ctx.call(RRDR.r_lookahead_sufficient, repo)
+    ctx.call(RX.r_buffer_encapsulated, repo)
+    ctx.call(RLNG.r_regex_linear, repo)
 
-    RX.r_plain_start_consumed(ctx, repo)
+    ctx.call(RX.r_plain_start_consumed, repo)
 
 
 if __name__ == '__main__':
